@@ -479,6 +479,16 @@ impl ArgEncodingState {
     }}
 }
 
+/// Converts an integer argument to the (narrower) integer type it is stored as,
+/// reporting an error instead of silently truncating a value that does not fit.
+fn int_arg_in_range<T: TryFrom<raw::LangInt>>(emitter: &impl Emitter, arg: &Sp<LowerArg>) -> Result<T, ErrorReported> {
+    let value = arg.expect_raw().expect_int();
+    T::try_from(value).map_err(|_| emitter.emit(error!(
+        message("integer argument out of range"),
+        primary(arg, "{value} does not fit in {} bytes", std::mem::size_of::<T>()),
+    )))
+}
+
 /// Implements the encoding of argument values into byte blobs according to an instruction's ABI.
 fn encode_args(
     state: &mut ArgEncodingState,
@@ -534,7 +544,7 @@ fn encode_args(
 
             if extra_arg.is_none() {
                 assert!(!first_normal_arg.expect_raw().is_reg, "checked above");
-                extra_arg = Some(first_normal_arg.expect_raw().expect_int() as _);
+                extra_arg = Some(int_arg_in_range(emitter, first_normal_arg)?);
             } else {
                 // Explicit @arg0, but also drawn from args.
                 // To keep the type checker's job simpler, we took an argument from the argument list anyways,
@@ -611,19 +621,19 @@ fn encode_args(
             => args_blob.write_i32(arg.expect_raw().expect_int()).expect("Cursor<Vec> failed?!"),
 
             | ArgEncoding::Integer { size: 2, format: ast::IntFormat { signed: true, radix: _ }, .. }
-            => args_blob.write_i16(arg.expect_raw().expect_int() as _).expect("Cursor<Vec> failed?!"),
+            => args_blob.write_i16(int_arg_in_range(emitter, arg)?).expect("Cursor<Vec> failed?!"),
 
             | ArgEncoding::Integer { size: 1, format: ast::IntFormat { signed: true, radix: _ }, .. }
-            => args_blob.write_i8(arg.expect_raw().expect_int() as _).expect("Cursor<Vec> failed?!"),
+            => args_blob.write_i8(int_arg_in_range(emitter, arg)?).expect("Cursor<Vec> failed?!"),
 
             | ArgEncoding::Integer { size: 4, format: ast::IntFormat { signed: false, radix: _ }, .. }
             => args_blob.write_u32(arg.expect_raw().expect_int() as _).expect("Cursor<Vec> failed?!"),
 
             | ArgEncoding::Integer { size: 2, format: ast::IntFormat { signed: false, radix: _ }, .. }
-            => args_blob.write_u16(arg.expect_raw().expect_int() as _).expect("Cursor<Vec> failed?!"),
+            => args_blob.write_u16(int_arg_in_range(emitter, arg)?).expect("Cursor<Vec> failed?!"),
 
             | ArgEncoding::Integer { size: 1, format: ast::IntFormat { signed: false, radix: _ }, .. }
-            => args_blob.write_u8(arg.expect_raw().expect_int() as _).expect("Cursor<Vec> failed?!"),
+            => args_blob.write_u8(int_arg_in_range(emitter, arg)?).expect("Cursor<Vec> failed?!"),
 
             | ArgEncoding::Integer { size, .. }
             => panic!("unexpected integer size: {size}"),
